@@ -336,6 +336,8 @@ def setup():
         if os.path.exists(os.path.join(cr, d, "src", "main.rs")):
             pk.append(d)
     build_harness(pk)
+    # second artefact: the engine with the enum value representation (used by C12)
+    build_harness(["hval", "hjs"], features="hval/jsvalue-enum hjs/jsvalue-enum", target_subdir="enum")
     return 0 if ok else 2
 
 
